@@ -127,6 +127,8 @@ def check_1d(case, ctx: Ctx):
     if kind in ("pl_series", "pl_series_int", "dask") and False:
         pass
     kw = {"dropna": case["dropna"]}
+    if case["dropna"] is True and case.get("use_defaults"):
+        kw = {}  # dropna=True is the documented default
     if ws is not None:
         warr = np.array(ws, dtype=np.int64 if all(isinstance(x, int) for x in ws) else np.float64)
         if kind in ("nested", "array2d", "array2d_fortran", "array2d_view"):
@@ -244,7 +246,7 @@ def cases_1d(draw, tier="quick"):
         ws = [i % 7 + 1 for i in range(len(data))]  # non-uniform, so that a re-ordering of the values shows
     return {"pairs": ps, "data": data, "kind": kind, "weights": ws, "wcontainer": wcont, "dropna": dropna,
             "name": draw(st.sampled_from([None, "x", "energy"])), "axis_name": draw(st.sampled_from([None, None, "given"])),
-            "via": draw(st.sampled_from(["h1", "h1", "accessor"])),
+            "via": draw(st.sampled_from(["h1", "h1", "accessor"])), "use_defaults": draw(st.booleans()),
             "bins_count": draw(st.sampled_from([None, None, 10, 5, 3])) if len(set(x for x in data if x == x)) >= 2 else None}
 
 
